@@ -33,11 +33,33 @@ Definition str_index (sub s : string) : option nat := String.index 0 sub s.
 
 (* ast.go: func ContainsExpression(s string) bool {
      i := strings.Index(s, "${{"); return i >= 0 && i < strings.Index(s, "}}") } *)
+(* ContainsExpression (ast.go): the closing braces are looked for AFTER the opening (from the
+   repair of the round-7 defect on; before it the FIRST "}}" of the string had to lie behind the
+   first "${{", so `c }} ${{ x }}` counted as plain text: [contains_expr_old]) *)
 Definition contains_expr (s : string) : bool :=
+  match str_index "${{" s with
+  | Some i => match String.index i "}}" s with Some _ => true | None => false end
+  | None => false
+  end.
+
+Definition contains_expr_old (s : string) : bool :=
   match str_index "${{" s, str_index "}}" s with
   | Some i, Some j => i <? j
   | _, _ => false
   end.
+
+Lemma contains_expr_spec s :
+  contains_expr s = true <-> exists i j, String.index 0 "${{" s = Some i /\ String.index i "}}" s = Some j.
+Proof.
+  unfold contains_expr, str_index. split.
+  - destruct (String.index 0 "${{" s) as [i|]; [|discriminate].
+    destruct (String.index i "}}" s) as [j|] eqn:E; [|discriminate]. intros _. exists i, j. auto.
+  - intros (i & j & Hi & Hj). now rewrite Hi, Hj.
+Qed.
+
+Lemma contains_expr_old_refuted :
+  exists s, contains_expr s = true /\ contains_expr_old s = false.
+Proof. exists "c }} ${{ github.ref }}"%string. split; reflexivity. Qed.
 
 Lemma lower_ascii_idem c : lower_ascii (lower_ascii c) = lower_ascii c.
 Proof.
